@@ -175,6 +175,10 @@ def dec(x, W=None):
             return np.float64(x["$npf"])
         if "$npi" in x:
             return np.int64(x["$npi"])
+        if "$np32" in x:
+            return np.float32(float.fromhex(x["$np32"]))  # single-precision scalar (hex of its exact value)
+        if "$a32" in x:
+            return np.array([float.fromhex(v) for v in x["$a32"]], dtype=np.float32)
         if "$none" in x:
             return None
         return {k: dec(v, W) for k, v in x.items()}
@@ -213,6 +217,10 @@ def ref_vols(x):
             return float(x["$npf"])
         if "$npi" in x:
             return int(x["$npi"])
+        if "$np32" in x:
+            return float.fromhex(x["$np32"])
+        if "$a32" in x:
+            return [float.fromhex(v) for v in x["$a32"]]
         if "$tuple" in x:
             return [ref_vols(v) for v in x["$tuple"]]
     if isinstance(x, list):
@@ -269,6 +277,18 @@ def exec_event(W, ev):
         elif op == "call":
             _, wl, meth, args, kw = ev
             getattr(W["wl"][wl], meth)(*dec(args, W), **dec(kw, W))
+        elif op == "caller_write":
+            # the caller re-uses the array it once handed to a constructor as initial_volumes
+            _, key, value = ev
+            W["shared"][key][...] = dec(value, W)
+        elif op == "set_attr":
+            # assignment to a public attribute of a live worklist (e.g. wl.max_volume = 200)
+            _, wl, name, value = ev
+            setattr(W["wl"][wl], name, dec(value, W))
+        elif op == "list_op":
+            # the worklist is a list: records edited through plain list methods (extend, pop, insert, ...)
+            _, wl, meth, args = ev
+            getattr(W["wl"][wl], meth)(*dec(args, W))
         else:
             raise RuntimeError(f"unknown event {op}")
     except Exception as e:  # observations, not crashes
